@@ -15,3 +15,12 @@ ENGINES = {
 PROPS = {
     "C13": {"engines": ["taskpool"]},
 }
+
+# engines contributed by separately developed simulators
+import importlib, os, sys
+for _m in ("engines_kernsim", "engines_reload"):
+    if os.path.exists(os.path.join(os.path.dirname(os.path.abspath(__file__)), _m + ".py")):
+        _mod = importlib.import_module(_m)
+        ENGINES.update(getattr(_mod, "ENGINES", {}))
+        for _k, _v in getattr(_mod, "PROPS", {}).items():
+            PROPS.setdefault(_k, {"engines": []})["engines"] += _v["engines"]
